@@ -155,13 +155,13 @@ func runC14(e *Env) {
 			e.Probe("capped-before-termination")
 			return
 		}
-		if !h.Returned || h.S == nil {
+		if !h.Ret() || h.Sub() == nil {
 			// Subscribe has not returned: nothing to unsubscribe with. A never-ending source with an
 			// operator that waits inside Subscribe: only a downstream terminator can end it.
 			e.Probe("subscribe-blocked-no-terminator")
 			return
 		}
-		e.Go("unsubscriber", func() { h.S.Unsubscribe(); unsubRet = true })
+		e.Go("unsubscriber", func() { h.Sub().Unsubscribe(); unsubRet = true })
 		e.Settle()
 		if !unsubRet {
 			e.Violate("C14", "unsubscribe-blocks", "external Unsubscribe did not return without the clock advancing")
@@ -208,7 +208,7 @@ func runC14(e *Env) {
 			e.Violate("C14", "upstream-not-cancelled", fmt.Sprintf("downstream terminated (%s, trace %s) but source %d (%s) still has %d live subscription(s) at quiescence, before the clock moved", sc.Sub, rec.Trace(), s.ID, s.Spec.Mode, s.Live))
 		}
 	}
-	if !h.Returned {
+	if !h.Ret() {
 		e.Violate("C14", "subscribe-blocked", fmt.Sprintf("downstream terminated (%s, trace %s) but the Subscribe call has not returned at quiescence", sc.Sub, rec.Trace()))
 	}
 	// and nothing is emitted afterwards
@@ -278,7 +278,7 @@ func runC14Ctx(e *Env) {
 				e.Violate("C14", "retry-after-cancel", fmt.Sprintf("Retry started a new attempt at step %d, after the context had been cancelled at step %d", at, cancelStep))
 			}
 		}
-		if !h.Returned {
+		if !h.Ret() {
 			e.Violate("C14", "subscribe-blocked", "Retry: context cancelled and the attempt in progress ended, but Subscribe has not returned")
 		}
 		if src.Live != 0 {
@@ -289,7 +289,7 @@ func runC14Ctx(e *Env) {
 		}
 		return
 	}
-	if !h.Returned {
+	if !h.Ret() {
 		e.Violate("C14", "subscribe-blocked", "context cancelled but Subscribe has not returned at quiescence")
 	}
 	if src != nil && src.Live != 0 {
@@ -306,7 +306,7 @@ func runC14Ctx(e *Env) {
 			e.Violate("C14", "value-after-cancel", fmt.Sprintf("value delivered after the context was cancelled and the system had settled: %s", rec.Trace()))
 		}
 	}
-	if h.Returned && h.S != nil && !h.S.IsClosed() && sc.Sub != "Timer" {
+	if h.Ret() && h.Sub() != nil && !h.Sub().IsClosed() && sc.Sub != "Timer" {
 		e.Violate("C14", "not-closed-after-cancel", fmt.Sprintf("%s: subscription still open after its context was cancelled (trace %s)", sc.Sub, rec.Trace()))
 	}
 	for _, a := range e.K.Actors() {
